@@ -212,9 +212,9 @@ class Gen:
         r = self.r
         self.tag("loop")
         var = r.choice(["i", "j", "it"])
-        coll = self.maybe_fault(r.choice(["xs", "range(2)", "range(a)", "[1, 2, 3]", "xs + [7]", "d"]), "loop-coll")
+        coll = self.maybe_fault(r.choice(["list(xs)", "range(2)", "range(a)", "[1, 2, 3]", "xs + [7]", "list(d)"]), "loop-coll")
         out = [f"@for {var} in {coll}:"]
-        sc = tuple(scope) + ((var,) if coll != "d" else ())
+        sc = tuple(scope) + ((var,) if coll != "list(d)" else ())
         inner = []
         for _ in range(r.randint(1, 2)):
             k = r.random()
